@@ -23,8 +23,7 @@ func checkC03(p *Prog, res *Result, tier string) {
 	res.rule("C03-R4", "scan attempts start from an empty receiver; partition borders stay contiguous; a failed partition fails the read (C13-R5/R6/R8)", 5)
 
 	// ---- R1 ----
-	sub2 := newResult("C02")
-	checkC02(p, sub2, tier)
+	sub2 := p.subResult("C02", tier)
 	for _, o := range sub2.Obls {
 		if o.Rule == "C02-R2" {
 			res.add("C03-R1", o.Rule+" "+o.Construct, o.Status, o.Pos, o.Detail)
@@ -59,8 +58,7 @@ func checkC03(p *Prog, res *Result, tier string) {
 			}
 		}
 	}
-	sub7 := newResult("C07")
-	checkC07(p, sub7, tier)
+	sub7 := p.subResult("C07", tier)
 	for _, o := range sub7.Obls {
 		if o.Rule == "C07-R1" {
 			res.add("C03-R1", o.Rule+" "+o.Construct, o.Status, o.Pos, o.Detail)
@@ -184,8 +182,7 @@ func checkC03(p *Prog, res *Result, tier string) {
 	}
 
 	// ---- R4 ----
-	sub13 := newResult("C13")
-	checkC13(p, sub13, tier)
+	sub13 := p.subResult("C13", tier)
 	for _, o := range sub13.Obls {
 		if o.Rule == "C13-R5" || o.Rule == "C13-R6" || o.Rule == "C13-R8" {
 			res.add("C03-R4", o.Rule+" "+o.Construct, o.Status, o.Pos, o.Detail)
